@@ -792,8 +792,6 @@ namespace verif
                                fmt("byte %u of freshly returned memory at offset %u is 0x%02X, not 0xCD", i, off, c[i]));
                         break;
                     }
-            if (!t.violations.empty())
-                return false;
             live_t l{};
             l.off   = off;
             l.bytes = bytes;
@@ -804,6 +802,12 @@ namespace verif
             l.owner = u8(s);
             l.fam   = r.fam;
             l.tag   = r.tag;
+            if (!t.violations.empty())
+            {
+                // let the kind specific monitors (counters, maxima) speak about this allocation as well
+                (void)guarded([&] { P::check_alloc(w, s, r, l, before); }); // the object may already be corrupt
+                return false;
+            }
             fill_pattern(w.arena, l);
             if (bulk)
             {
